@@ -2104,15 +2104,32 @@ def run_C18(ctx: Ctx) -> Result:
     res.merge(streams.parse_stream(docs, proj_builds, modes=(False,)))
     # one Parser instance through the whole sequence, every document twice (equal errors recur)
     shared_parser = impl.Parser(impl.RecordingBuilder(impl.id_gen(0)))
-    for src in [d for d in docs[:: ctx.n(3, 1)] for _ in (0, 1)]:
+    # documents whose parse ABORTS while the look-ahead queue still holds lines: a builder error (ragged table) raised by the
+    # tag line that closes the table, in stop mode / as the eleventh error; whatever is parsed next on the same Parser must
+    # not see those lines
+    aborting = ["Feature: f\n  Scenario: s\n    Given x\n      | a | b |\n      | c |\n  @t\n  @u\n\n  # c\n  Scenario: stale\n    Given y\n",
+                "Feature: f\n  Scenario Outline: s\n    Given <a>\n    Examples:\n      | a |\n      | 1 | 2 |\n    @t\n    @u\n    Examples: stale\n      | a |\n",
+                "Feature: f\n" + "".join(f"  bad line {i_}\n  Scenario: s{i_}\n" for i_ in range(10)) +
+                "    Given x\n      | a | b |\n      | c |\n  @t\n  @u\n  Scenario: stale\n    Given y\n"]
+    hist_docs = [d for d in docs[:: ctx.n(3, 1)] for _ in (0, 1)]
+    for k_, a_doc in enumerate(aborting):
+        hist_docs.insert(min(len(hist_docs), 2 + 5 * k_), a_doc)
+        hist_docs.insert(min(len(hist_docs), 3 + 5 * k_), "Feature: after\n  Scenario: clean\n    Given z\n")
+    broke = False
+    for src in hist_docs:
         if impl.is_existing_path(src):
             continue
-        o = impl.parse(src, False, parser=shared_parser)
-        f_ = impl.parse(src, False)
-        a_, b_ = proj_builds(o), proj_builds(f_)
-        if a_ != b_:
-            res.fail("history", {"source": src, "note": "second and later parses through one Parser instance"}, a_, b_,
-                     "a reused Parser delivers/reports different lines than a fresh one: " + str(first_diff(a_, b_)))
+        for stop_ in (False, True):
+            o = impl.parse(src, stop_, parser=shared_parser)
+            f_ = impl.parse(src, stop_)
+            a_, b_ = proj_builds(o), proj_builds(f_)
+            res.stats["history_parses_one_parser"] += 1
+            if a_ != b_:
+                res.fail("history", {"source": src, "stop": stop_, "note": "second and later parses through one Parser instance (both modes alternating)"}, a_, b_,
+                         "a reused Parser delivers/reports different lines than a fresh one: " + str(first_diff(a_, b_)))
+                broke = True
+                break
+        if broke:
             break
     huge_oracle(res, ctx, ("run", "line"))
     # direct oracle: accepted → builds are lines 1..n then EOF; rejected (below cap) → partition
